@@ -22,7 +22,8 @@ def _apply(op, r, rcls, rng):
     if op == "permute+rebuild":
         cs = list(r.constraints)
         rng.shuffle(cs)
-        return rcls(constraints=cs)
+        # any collection of constraints: a list, a tuple, or an iterator-built list
+        return rcls(constraints=rng.choice([list, tuple, list])(cs))
     if op == "simplify":
         return rcls(constraints=VersionConstraint.simplify(list(r.constraints)))
     if op == "validate":
@@ -56,13 +57,17 @@ def correspondence(ctx):
         for _ in range(walks * 4):
             k = rng.choice([1, 2, 3, 3, 4, 5])
             ranks = sorted(rng.sample(range(1, 10), k))
-            cons = [(rng.choice(B.CMPRS), r) for r in ranks]
+            if rng.random() < 0.3:
+                # rich in what simplification removes: runs of '=' after a lower bound / before an upper bound
+                cons = [(rng.choice(["eq", "eq", "ge", "gt", "le", "lt", "ne"]), r) for r in ranks]
+            else:
+                cons = [(rng.choice(B.CMPRS), r) for r in ranks]
             cand.append(cons)
             lines.append("invert %s" % B.cons_line(cons))
         good = []
         for c, a in zip(cand, common.run_model(lines)):
             parts = a.split(" ")
-            if len(parts) == 3 and parts[1] == "true" and parts[2] == "true":     # well-formed, non-vacuous (invert twice is in the alphabet)
+            if len(parts) == 3 and parts[1] == "true":     # well-formed (inverting twice gives the constraints back, vacuous ones included)
                 good.append(c)
         good = good[:walks]
         dl = ["denote %s %d" % (B.cons_line(c), x) for c in good for x in range(0, 11)]
@@ -82,8 +87,8 @@ def correspondence(ctx):
             simplified_text = None
             n = rng.randint(1, maxlen)
             ctx.count(stream, key=(tuple(cons), n), nontrivial=(n >= 3 and len(cons) >= 2))
-            for step in range(n):
-                op = rng.choice(OPS)
+            plan = [rng.choice(OPS) for _ in range(n)] + ["simplify", rng.choice(OPS), "simplify"]
+            for op in plan:
                 hist.append(op)
                 try:
                     r = _apply(op, r, rcls, rng)
